@@ -101,6 +101,13 @@ class n0dict_(n0dict__):
                 if not len(parent.items()):
                     return ""
                 for key, value in parent.items():
+                    if isinstance(value, (list, tuple)) and len(value):
+                        # repeated element: one <key> element per item, each laid out as a single entry would be
+                        for subitm in value:
+                            if result:
+                                result += "\n"
+                            result += self.__xml({key: subitm}, indent, inc_indent)
+                        continue
                     # if result and (len(parent) > 2 or key not in ("Parm",)):
                     if key not in ("Parm","ParmCode","Value"):
                         if result:
